@@ -122,6 +122,10 @@ class Ctx:
         self.canonicalised: list = []
         if os.environ.get("SYNLINT_NO_INLINE") != "1":
             self.inlined = normalise(self.prog)
+        if os.environ.get("SYNLINT_NO_INLINE") != "1":
+            from .inline import destructure_namedtuples
+
+            destructure_namedtuples(self.prog)
         if os.environ.get("SYNLINT_NO_CANON") != "1":
             from .canon import canonicalise
 
